@@ -66,6 +66,19 @@ func scenarios(c *vlib.Ctx) []*slib.Scn {
 	for _, n := range []int{1, 2} {
 		add(modules.C06Params{Kind: "service-worker", Value: "error", Mgmt: true, Panics: n}, 0)
 	}
+	// the start / stop routine runs (and panics) in a management pass: ManageModules is the call that must return the error
+	for _, k := range []string{"start", "stop"} {
+		for _, v := range []string{"string", "error", "nil"} {
+			add(modules.C06Params{Kind: k, Value: v, Mgmt: true}, 0)
+		}
+		add(modules.C06Params{Kind: k, Value: "string", Mgmt: true, Chain: true}, 0)
+		add(modules.C06Params{Kind: k, Value: "string", Mgmt: true, Explore: true}, vlib.Pick(c, 2, 3))
+	}
+	// a service worker panics while its module is in sleep mode: restarted after the back-off all the same, module still stoppable
+	for _, n := range []int{1, 2} {
+		add(modules.C06Params{Kind: "service-worker", Value: "error", Sleep: true, Panics: n}, 0)
+		add(modules.C06Params{Kind: "service-worker", Value: "string", Sleep: true, Panics: n, Healthy: []string{"worker"}, Explore: true}, vlib.Pick(c, 1, 2))
+	}
 	// lifecycle panics with a second module that stops after / starts before the panicking one
 	for _, k := range []string{"prep", "start", "stop"} {
 		for _, v := range []string{"string", "error"} {
@@ -95,7 +108,7 @@ func scenarios(c *vlib.Ctx) []*slib.Scn {
 
 func main() {
 	vlib.Main("C06", "model_checking", func(c *vlib.Ctx) {
-		c.Rule("complete (execution kind x panic value) table (15 kinds x 9 values, incl. a value of an uncomparable type and a *ModuleError), every kind with a full error reporting channel that nobody reads, under the default schedule, every work kind panicking twice in a row, a service worker whose module is disabled and re-enabled during the back-off, plus for every kind the panicking item among 1-2 healthy items with all interleavings within the deviation bound, on the source-instrumented modules package; " +
+		c.Rule("complete (execution kind x panic value) table (15 kinds x 9 values, incl. a value of an uncomparable type and a *ModuleError), every kind with a full error reporting channel that nobody reads, under the default schedule, every work kind panicking twice in a row, a service worker whose module is disabled and re-enabled during the back-off or is in sleep mode, start and stop routines that panic inside a management pass (ManageModules must return the error), plus for every kind the panicking item among 1-2 healthy items with all interleavings within the deviation bound, on the source-instrumented modules package; " +
 			"distinct_nontrivial = distinct observation traces per scenario; API part: every handler kind x 8 panic values x stage x method x dev mode with follow-up requests and all depth-2 (thorough 3) histories through the real mainHandler.ServeHTTP")
 		c.Assume("sequential consistency; data-race freedom outside the instrumented synchronisation operations; API request handlers are covered by the sequential api part of this check")
 		if c.Replay != "" {
